@@ -26,7 +26,6 @@ THEOREMS = [
     "C16_contain_blank",
     "C16_contain_step",
     "C16_contain",
-    "C16_contain_refuted",
     "C16_reverse_surface",
     "C16_reverse_surface_exact",
     "C16_reverse_surface_geometry",
